@@ -134,12 +134,15 @@ CHECKS = {
         technique="Coq proof (inductive invariant over a small-step interleaving model) + trace validation of the hooked implementation under a deterministic scheduler + trace monitors",
         design="§7.R C04"),
     "C05": dict(
-        text="Theorems (Coq, same model): the producer writes sequence q only when EVERY handler of EVERY stage has returned from q-N (no overwrite before consumption); a claim ending at e needs a "
-             "gating value m with e <= m+N below every last-stage cursor (a producer a full ring ahead blocks); the cursor-chain invariant is inductive. The happens-before half of the property is "
-             "decided on every explored schedule by a vector-clock analysis driven by the Ordering arguments the code REALLY passed (release sequences through RMWs, mutex edges), and the trace "
-             "validation pins those orderings (Release on every cursor store, Acquire on every cursor load). Same-stage mutable handlers race: known finding D9.",
-        note=LEVEL_NOTE_COMMON + "Axioms: none. The happens-before statement is NOT a Coq theorem (value-level ordering is); it is checked per execution with vector clocks. C11 stale reads are not explored.",
-        technique="Coq proof (value-level ordering invariant) + vector-clock happens-before race detection on scheduler-controlled executions + trace validation of orderings",
+        text="Theorems (Coq, single-producer pipeline, ANY ring size / stage topology / batch sizes / interleaving): (value level, Disruptor/Pipeline.v and again with cursors read one at a time in "
+             "Disruptor/HB.v) the producer writes sequence q only when EVERY handler of EVERY stage has returned from q-N; a claim ending at e needs a gating value m with e <= m+N below every last-stage "
+             "cursor (a producer a full ring ahead blocks). (Happens-before, Disruptor/HB.v) with Release stores and Acquire loads on the cursors and happens-before tracked as per-thread knowledge "
+             "(vector clocks specialised to sequence numbers), at every slot access EVERY earlier access to the same slot - every fill so far, every access so far by a handler of another stage - is "
+             "ordered before it by happens-before (handler_no_race, producer_no_race; two inductive invariants: knowledge and real progress). What the theorem assumes of the code (orderings, order of "
+             "operations per thread) is pinned by trace validation on every explored execution; an independent vector-clock race detector over the Ordering arguments the code REALLY passed runs on "
+             "every explored schedule too. Same-stage mutable handlers race: known finding D9 (excluded from the theorem by stage g <> stage h).",
+        note=LEVEL_NOTE_COMMON + "Axioms: none. Release/acquire semantics are modelled as knowledge transfer (one writer per cursor, so no release sequences are needed); multi-producer happens-before is monitored per execution, not proved. C11 stale reads are not explored by the scheduler (the proof does not depend on read freshness beyond monotone lower bounds... in HB.v loads return the current value).",
+        technique="Coq proof (inductive invariants over a per-cursor-read interleaving model with happens-before knowledge) + trace validation of orderings + vector-clock race detection on scheduler-controlled executions",
         design="§7.R C05"),
     "C06": dict(
         text="PARTIAL. Theorems (Coq, blocking wait / signal protocol, any number of waiters and signalling threads, any interleaving, spurious wake-ups): a waiter that parks (or has decided to "
